@@ -60,7 +60,7 @@ def inventory(ctx, config, crate, amt):
             continue
         n_bodies += 1
         for a in m["asserts"]:
-            if not a["cleanup"]:
+            if not a["cleanup"] and not a.get("never_fires"):
                 sites.append((d, "assert:" + a["kind"], a["sp"]))
         for cl in m["calls"]:
             if cl["cleanup"]:
@@ -194,7 +194,8 @@ def unwrap_discharge(ctx, config, w):
         if q.kind != "ref":
             continue
         c = conc.Conc(U, q, ev)
-        for (cname, x) in rules_c05.cells(q):
+        special = [("NaN", float("nan")), ("+infinity", float("inf")), ("-infinity", float("-inf"))] if config.startswith("f64") else []
+        for (cname, x) in rules_c05.cells(q) + special:
             for (g, k, t) in outs:
                 guarded = {T.canon(a[1]) for a, p in g if a[0] == "isvar" and a[2] == "Some" and p}
                 try:
@@ -211,8 +212,11 @@ def unwrap_discharge(ctx, config, w):
                         continue
                     try:
                         v = c.eval(u[1], {0: x})
-                    except (conc.CannotEvaluate, conc.ModelPanic, T.Unsupported) as e:
+                    except conc.ModelPanic as e:
                         v = None
+                    except (conc.CannotEvaluate, T.Unsupported) as e:
+                        ctx.fail("unwrap-discharged", "%s/%s" % (config, q.path), "cannot evaluate the selection model: %s" % e, b["span"])
+                        continue
                     n += 1
                     ctx.ob("unwrap-discharged", "%s/%s/%s" % (config, q.path, cname), v is not None,
                            "Option::unwrap in _fit is reached with None for %s, magnitude %s: no eligible unit (%s)" % (q.path, cname, T.show(u[1])[:200]),
